@@ -25,6 +25,10 @@ def register(M):
             raise Inconclusive('%s: iteration over %r (install a concrete-length vec in the harness)' % (what, inner))
         if isinstance(v, Obj) and v.kind == 'vec':
             return list(v.items)
+        if isinstance(v, Obj) and v.kind == 'pstream':
+            return [it for _, it in v.items]
+        if isinstance(v, Adt) and T.type_name_hint(v.ty)[0] == 'Option':
+            return [M.payload(ex, v)] if M.is_some(ex, v) else []
         raise Inconclusive('%s: iteration over %r' % (what, v))
 
     M.seq_of = seq_of
